@@ -66,6 +66,10 @@ def ob_class(ctx):
             ctx.witness("earlier-accepted")
         ctx.earlier = earlier
         rec.seq = st.Seq(r)
+    elif P.get("plain"):
+        # a plain SeqRecord without a topology annotation is searched as a circle too; whatever the accessors answer
+        # for it must be true of that circle (today fragment extraction refuses such a record with TypeError)
+        rec = st.SeqRecord(st.Seq(r), id="rec")
     else:
         rec = st.record.CircularRecord(st.Seq(r), id="rec")
     ent = K(rec)
@@ -84,7 +88,19 @@ def ob_class(ctx):
         return True
     ctx.witness("accepted")
     os_, oe_ = ent.overhang_start(), ent.overhang_end()
-    tgt = ent.target_sequence()
+    if P.get("plain"):
+        try:
+            tgt = ent.target_sequence()
+        except TypeError:
+            ctx.witness("fragment-refused")
+            g0 = Geometry(K.cutter)
+            m0 = ent._match
+            for ovh, grp in ((os_, 1 if role == "module" else 3), (oe_, 3 if role == "module" else 1)):
+                c0 = ival(m0.span(grp)[0])
+                ctx.require(And(is_cut(r, n, c0, g0), equals_circ(ovh, r, n, c0, g0.ovl)), "overhang-not-a-restriction-end")
+            return True
+    else:
+        tgt = ent.target_sequence()
     ctx.observe("start", os_)
     ctx.observe("end", oe_)
     ctx.observe("target", tgt.seq)
@@ -244,6 +260,11 @@ def obligations(tier, seed):
         obs.append(Ob("generic %s over %s n=%d, record typed before and edited in place" % (role, e, F + 1), ob_class,
                       dict(src="generic", role=role, enzyme=e, n=F + 1, history=True), samples=3, cost=F ** 3 * 2,
                       expect_witness=("accepted", "rejected", "earlier-accepted"), group="history"))
+    for e, role in tier_pick(tier, [("BsaI", "module")], [("BsaI", "module"), ("BsaI", "vector"), ("BbsI", "module")]):
+        F = fixed_letters(generic_class(st, role, e).structure())
+        obs.append(Ob("generic %s over %s n=%d on a plain SeqRecord (no topology annotation)" % (role, e, F + 1), ob_class,
+                      dict(src="generic", role=role, enzyme=e, n=F + 1, plain=True), samples=3, cost=(F + 1) ** 3,
+                      expect_witness=("accepted", "rejected"), group="plain"))
     slack = tier_pick(tier, [1], [0, 1, 2, 3, 4])
     for params, pat, F in class_params(tier, seed):
         if tier == "quick" and params.get("enzyme") in AMBIGUOUS_ENZYMES:
